@@ -89,7 +89,8 @@ def run(ctx: core.Ctx):
             except Exception as ex:
                 ctx.violation(f"{op}.compute/argument-form/{label}/raises-{type(ex).__name__}", {"op": op, "form": label}, "elementwise values", f"{type(ex).__name__}: {ex}")
                 continue
-            if r.shape != shape or not np.array_equal(back(r), V, equal_nan=True):
+            n2_ = shape[0] * shape[1] if label == "matrix-subclass-square" else len(V)
+            if r.shape != shape or not np.array_equal(back(r)[:n2_], V[:n2_], equal_nan=True):
                 ctx.violation(f"{op}.compute/argument-form/{label}/values", {"op": op, "form": label}, "table", "differs",
                               note=f"{label} operands give other values than the same values in plain vectors")
         # the same operands repeated into vectors of more than 4096 elements
